@@ -21,6 +21,9 @@ type vfCaseC11 struct {
 	FailOpen bool // request server: the handler fails opens of "dir/b" with an error
 	CloseErr bool // request server: every handler object's Close returns an error
 	End      vfEnding
+	// request server: opens that are still inside their handler when the session ends (seed C11-e): sent
+	// without waiting right before the ending, the handler calls are let go only afterwards
+	InFlight []vfReq `json:",omitempty"`
 }
 
 var vfC11Kinds = []string{"OPEN", "OPEN", "OPEN", "OPENDIR", "OPENDIR", "CLOSE", "CLOSE", "CLOSE", "READ", "WRITE", "FSTAT", "FSETSTAT", "READDIR", "READDIR", "STAT", "FSYNC"}
@@ -66,6 +69,16 @@ func vfGenC11(t *rapid.T) vfCaseC11 {
 	c.End = vfEnding{Kind: rapid.SampledFrom([]string{"closeall", "eof", "cut", "malformed", "readerr"}).Draw(t, "ending")}
 	if c.End.Kind == "cut" {
 		c.End.Cut = rapid.IntRange(1, 30).Draw(t, "cut")
+	}
+	if c.Srv.Kind == "rs" && c.End.Kind != "closeall" && rapid.IntRange(0, 2).Draw(t, "inflight") == 0 {
+		n := rapid.IntRange(1, 4).Draw(t, "ninflight")
+		for i := 0; i < n; i++ {
+			r := vfReq{T: "OPEN", P: rapid.SampledFrom([]int{0, 0, 2, 8, 11}).Draw(t, "ifpath"), Pflags: uint32(rapid.SampledFrom([]int{1, 1, 0x1a, 3}).Draw(t, "ifpf"))}
+			if rapid.IntRange(0, 3).Draw(t, "ifdir") == 0 {
+				r = vfReq{T: "OPENDIR", P: rapid.SampledFrom([]int{1, 4, 11}).Draw(t, "ifdirpath")}
+			}
+			c.InFlight = append(c.InFlight, r)
+		}
 	}
 	return c
 }
@@ -205,6 +218,21 @@ func vfRunC11(ctx *vfCtx, c vfCaseC11) {
 			}
 		}
 	}
+	// opens still inside their handler at the ending
+	inflightFrom := -1
+	if h != nil && len(c.InFlight) > 0 && c.End.Kind != "closeall" {
+		inflightFrom = len(h.Calls())
+		h.mu.Lock()
+		h.parkKinds["Open"] = true
+		h.mu.Unlock()
+		var pkts []*vfPkt
+		for _, r := range c.InFlight {
+			pkts = append(pkts, ps.env.build(r, ps.id()))
+		}
+		ps.srv.Send(pkts...)
+		vfSettle(ctx)
+		ctx.Class("opens-in-flight-at-the-end")
+	}
 	// the ending
 	openAtEnd := map[string]bool{}
 	switch c.End.Kind {
@@ -243,6 +271,14 @@ func vfRunC11(ctx *vfCtx, c vfCaseC11) {
 	for hs := range live {
 		openAtEnd[hs] = true
 	}
+	if inflightFrom >= 0 {
+		// the server has seen the end of the stream; only now do the pending opens complete
+		vfSettle(ctx)
+		h.mu.Lock()
+		h.parkKinds["Open"] = false
+		h.mu.Unlock()
+		h.ReleaseAll()
+	}
 	if !vfAwait(ctx, ps.srv.done, "Serve to return") {
 		ctx.Failf("C11/serve-hangs/"+kind+"/"+c.End.Kind, "Serve never returns after ending %+v\n%s", c.End, vfDumpRelevant())
 	}
@@ -263,6 +299,14 @@ func vfRunC11(ctx *vfCtx, c vfCaseC11) {
 			closes, terrs, after, okind := o.closes, append([]error{}, o.terrs...), o.afterClose, o.kind
 			o.mu.Unlock()
 			hs, viaHandle := byObj[o]
+			lateOpen := false
+			if inflightFrom >= 0 && !viaHandle {
+				for _, cl := range h.Calls()[inflightFrom:] {
+					if cl.Obj == o {
+						lateOpen = true // opened by a request that was still in its handler at the ending
+					}
+				}
+			}
 			if closes != 1 {
 				ctx.Failf("C11/object-closes/"+okind+"/"+c.End.Kind, "%s object #%d (%s, handle %q) was closed %d times by the time Serve returned", okind, o.id, o.path, hs, closes)
 			}
@@ -270,7 +314,7 @@ func vfRunC11(ctx *vfCtx, c vfCaseC11) {
 				ctx.Failf("C11/use-after-close/"+okind, "%s object #%d saw %d calls after its Close", okind, o.id, after)
 			}
 			if okind == "reader" || okind == "writer" || okind == "rw" {
-				wantErr := viaHandle && openAtEnd[hs]
+				wantErr := (viaHandle && openAtEnd[hs]) || lateOpen
 				switch {
 				case wantErr && len(terrs) != 1:
 					ctx.Failf("C11/transfer-error/missing/"+c.End.Kind, "%s object of handle %q was still open when the session ended (%+v) but got %d TransferError calls", okind, hs, c.End, len(terrs))
